@@ -33,6 +33,7 @@ fn main() {
         "core" => coregen::run(&args[2..]),
         "srcexpr" => coregen::run_source(),
         "subtype" => subtype::run(&args[2..]),
+        "seedprobe" => subtype::seedprobe(&args[2..]),
         _ => {
             eprintln!("usage: mvdrv serve | lexsweep .. | automaton .. | core .. | subtype ..");
             std::process::exit(2);
